@@ -226,6 +226,16 @@ def run(ctx):
                          {"type": "record", "name": "n.B", "fields": [{"name": "c", "type": {"type": "array", "items": "n.C"}}]}],
         {"type": "record", "name": "n.A", "fields": [{"name": "b", "type": "n.B"}, {"name": "c2", "type": ["null", "C"]}]}))
 
+    for c in sg.NULL_NS_CORPUS:
+        if isinstance(c, dict) and c.get("type") == "record":
+            schemas.append(c)
+            for sub in ([x] for x in candidates(c)):
+                sp = split(c, sub)
+                if sp is not None:
+                    work.append((c, [x["full"] for x in sub], sp[0], sp[1]))
+        else:
+            schemas.append(c)
+            work.append((c, [], None, None))
     # a top-level union: record branch referring to a separately parsed type + a dict-form enum branch (unmarked)
     work.append(([{"type": "record", "name": "R", "fields": [{"name": "c", "type": {"type": "record", "name": "Child", "fields": [{"name": "x", "type": "int"}]}}]},
                   {"type": "enum", "name": "E", "symbols": ["A", "B"]}, "null"],
@@ -248,12 +258,20 @@ def run(ctx):
     m_pw = [unhex(x) for x in out[:len(work)]]
     m_idem = out[len(work):]
 
+    rejected = set()
     # ---- idempotence on the implementation and in the model
     for s, mi in zip(schemas, m_idem):
         key = json.dumps(s, sort_keys=True)
         ctx.count("corr:idempotent", key)
         named = {}
-        parsed = parse_schema(copy.deepcopy(s), named)
+        first = outcome(lambda: parse_schema(copy.deepcopy(s), named))
+        if first[0] != "ok":
+            # a generated (specification-valid) schema the implementation does not even parse
+            ctx.violation("corr:idempotent", dict(schema=s, schema_json=json.dumps(s)), impl=str(first), model="accepted",
+                          signature="C12:parse_schema:valid-schema-rejected")
+            rejected.add(key)
+            continue
+        parsed = first[1]
         again = parse_schema(parsed)
 
         def unmark(x):
@@ -289,7 +307,12 @@ def run(ctx):
         ctx.count("corr:three-forms", key)
         cs = dict(schema=s, schema_json=json.dumps(s), split_off=sub, pieces_json=json.dumps(pieces), parent_json=json.dumps(parent))
         named = {}
-        parsed = parse_schema(copy.deepcopy(s), named)
+        first = outcome(lambda: parse_schema(copy.deepcopy(s), named))
+        if first[0] != "ok":
+            if key[0] not in rejected:
+                ctx.violation("corr:three-forms", cs, impl=str(first), model="accepted", signature="C12:parse_schema:valid-schema-rejected")
+            continue
+        parsed = first[1]
         if pieces is None:
             dg = gen.DataGen(data_rng, dict(named), hints=False)
             data = []
